@@ -3,6 +3,7 @@ std::locale (classic only), iostream sinks, misc.  Every model is part of the tr
 listed in the evidence as an assumption."""
 import z3
 from irsym import *
+import struct
 from irsym import _len, _cell_expr, MODULE_HOOKS
 
 
@@ -414,3 +415,183 @@ def x_ct_widen(eng, st, a):
 @ext('model_ctype_dtor', '_ZNKSt5ctypeIcE13_M_widen_initEv')
 def x_ct_noop(eng, st, a):
     return 0
+
+
+# ---- misc libc / clock
+def _lower(eng, st, c):
+    e = _cell_expr(c)
+    if isinstance(e, int):
+        return e + 32 if 65 <= e <= 90 else e
+    return simp(z3.If(z3.And(z3.UGE(e, 65), z3.ULE(e, 90)), e + 32, e))
+
+
+@ext('strcasecmp')
+def x_strcasecmp(eng, st, a):
+    from irsym import _cmp_cells
+    xs = [_lower(eng, st, c) for c in eng.read_cstr(st, a[0]) + [0]]
+    ys = [_lower(eng, st, c) for c in eng.read_cstr(st, a[1]) + [0]]
+    xs = [c if isinstance(c, int) else (c, 0) for c in xs]; ys = [c if isinstance(c, int) else (c, 0) for c in ys]
+    return _cmp_cells(eng, st, xs, ys) & 0xffffffff
+
+
+@ext('_ZNSt6chrono3_V212system_clock3nowEv')
+def x_clock_now(eng, st, a):
+    t = st.ext.get('clock', 1700000000 * 10**9)
+    st.ext['clock'] = t + 1000
+    return t
+
+
+@ext('time')
+def x_time(eng, st, a):
+    t = st.ext.get('clock', 1700000000 * 10**9) // 10**9
+    if a and a[0]:
+        eng.mem_write(st, a[0], int_cells(t, 8))
+    return t
+
+
+@ext('getpid')
+def x_getpid(eng, st, a):
+    return 4242
+
+
+@ext('pthread_self')
+def x_pthread_self(eng, st, a):
+    return st.ext.get('tid', 0x7f0000001000)
+
+
+# ---- varargs (x86-64 SysV va_list, everything passed in the overflow area) and printf family
+@ext_prefix('llvm.va_start')
+def x_va_start(eng, st, a, name):
+    fr = st.frames[-1]
+    args = fr.va or []
+    o = st.alloc(8 * max(len(args), 1), 'stack', 'varargs of ' + fr.fn.name, fill=0)
+    fr.allocas.append(o.base)
+    for i, v in enumerate(args):
+        if isinstance(v, float):
+            cells = list(struct.pack('<d', v))
+        else:
+            cells = int_cells(v, 8)
+        o.data[8 * i:8 * i + 8] = cells
+    eng.mem_write(st, a[0], int_cells(48, 4) + int_cells(304, 4) + int_cells(o.base, 8) + int_cells(0, 8))
+
+
+@ext_prefix('llvm.va_end')
+def x_va_end(eng, st, a, name):
+    return 0
+
+
+@ext_prefix('llvm.va_copy')
+def x_va_copy(eng, st, a, name):
+    eng.mem_write(st, a[0], eng.mem_read(st, a[1], 24))
+
+
+def _format(eng, st, fmt_addr, nextarg):
+    """printf-style formatting; nextarg() -> next 8-byte argument value.  Returns list of cells"""
+    fmt = eng.read_cstr(st, fmt_addr)
+    if any(not isinstance(c, int) for c in fmt):
+        raise EngineError('symbolic printf format string')
+    fmt = bytes(fmt); out = []; i = 0
+    while i < len(fmt):
+        c = fmt[i]
+        if c != 37:
+            out.append(c); i += 1; continue
+        i += 1
+        flags = b''
+        while i < len(fmt) and fmt[i:i + 1] in b'-+ #0':
+            flags += fmt[i:i + 1]; i += 1
+        width = b''
+        while i < len(fmt) and fmt[i:i + 1].isdigit():
+            width += fmt[i:i + 1]; i += 1
+        if fmt[i:i + 1] == b'*':
+            width = str(sext_const(nextarg() & 0xffffffff, 32)).encode(); i += 1
+        prec = None
+        if fmt[i:i + 1] == b'.':
+            i += 1; prec = b''
+            while i < len(fmt) and fmt[i:i + 1].isdigit():
+                prec += fmt[i:i + 1]; i += 1
+        lng = 0
+        while i < len(fmt) and fmt[i:i + 1] in b'lhzjt':
+            lng += fmt[i:i + 1] in b'lzjt'; i += 1
+        conv = fmt[i:i + 1]; i += 1
+        if conv == b'%':
+            piece = [37]
+        elif conv in b'diuxXo':
+            v = nextarg()
+            if is_sym(v):
+                st.ext['opaque_number_formatted'] = True; piece = list(b'<?>')
+            else:
+                bits = 64 if lng else 32
+                v &= (1 << bits) - 1
+                if conv in b'di':
+                    v = sext_const(v, bits)
+                piece = list((('%' + flags.decode() + (('.' + prec.decode()) if prec else '') + {'i': 'd', 'u': 'd'}.get(conv.decode(), conv.decode())) % v).encode())
+        elif conv == b'c':
+            v = nextarg(); piece = [v & 255] if type(v) is int else [(simp(z3.Extract(7, 0, v)), 0)]
+        elif conv == b's':
+            p = nextarg(); piece = list(b'(null)') if p == 0 else eng.read_cstr(st, p)
+            if prec is not None and prec != b'':
+                piece = piece[:int(prec)]
+        elif conv == b'p':
+            nextarg(); piece = list(b'0xPTR')
+        elif conv in b'fgeG':
+            v = nextarg(); piece = list(b'<float>')
+        else:
+            raise EngineError('printf conversion %r' % conv)
+        if width and len(piece) < int(width):
+            pad = [48 if (b'0' in flags and conv in b'diuxXo' and b'-' not in flags) else 32] * (int(width) - len(piece))
+            piece = piece + pad if b'-' in flags else pad + piece
+        out += piece
+    return out
+
+
+def _va_reader(eng, st, ap):
+    def nxt():
+        area = cells_int(eng.mem_read(st, ap + 8, 8))
+        v = cells_int(eng.mem_read(st, area, 8))
+        eng.mem_write(st, ap + 8, int_cells(area + 8, 8))
+        return v
+    return nxt
+
+
+def _list_reader(vals):
+    it = iter(vals)
+
+    def nxt():
+        v = next(it, 0)
+        if isinstance(v, float):
+            return struct.unpack('<Q', struct.pack('<d', v))[0]
+        return v
+    return nxt
+
+
+def _emit(eng, st, buf, size, cells):
+    if size:
+        n = min(len(cells), size - 1)
+        eng.mem_write(st, buf, cells[:n] + [0])
+    return len(cells)
+
+
+@ext('vsnprintf')
+def x_vsnprintf(eng, st, a):
+    size = _len(eng, st, a[1], 'vsnprintf size')
+    return _emit(eng, st, a[0], size, _format(eng, st, a[2], _va_reader(eng, st, a[3])))
+
+
+@ext('snprintf')
+def x_snprintf(eng, st, a):
+    size = _len(eng, st, a[1], 'snprintf size')
+    return _emit(eng, st, a[0], size, _format(eng, st, a[2], _list_reader(a[3:])))
+
+
+@ext('sprintf')
+def x_sprintf(eng, st, a):
+    return _emit(eng, st, a[0], 1 << 30, _format(eng, st, a[1], _list_reader(a[2:])))
+
+
+@ext('vasprintf')
+def x_vasprintf(eng, st, a):
+    cells = _format(eng, st, a[1], _va_reader(eng, st, a[2]))
+    o = st.alloc(len(cells) + 1, 'heap:malloc', 'vasprintf', fill=0)
+    o.data[:len(cells)] = cells
+    eng.mem_write(st, a[0], int_cells(o.base, 8))
+    return len(cells)
